@@ -272,6 +272,14 @@ func configs(quick bool) []cfg {
 				ReadAt: map[string]int{r.file: k}, Must: true, Bs: []int{1, 2, 500}})
 		}
 	}
+	// F7b read error in the second of two files (the first must have been emitted; the run must still fail)
+	for _, r := range readers[:6] {
+		second := strings.Replace(r.file, "in.", "in2.", 1)
+		for _, ch := range []chainT{{"cat", S("cat"), true}, {"tac", S("tac"), true}, {"head1", S("head -n 1"), false}} {
+			add(cfg{Kind: "read-error-2nd-file" + r.flag, Name: fmt.Sprintf("read-error-2nd-file:%s:%s", r.flag, ch.name), Argv: append(append([]string{r.flag, "--ojson"}, ch.args...), r.file, second),
+				Files: vf.VFS{r.file: r.text, second: r.text}, ReadAt: map[string]int{second: len(r.text) / 2}, Must: ch.must, Bs: []int{1, 2, 500}})
+		}
+	}
 	// F8 missing file at list position i of 3
 	for i := 1; i <= 3; i++ {
 		names := []string{"/vfs/a.dkvp", "/vfs/b.dkvp", "/vfs/c.dkvp"}
@@ -507,6 +515,12 @@ func binCases() []binCase {
 		{"bad-flag", `$MLR --nosuchflag cat $D/ok.dkvp`, "fail"},
 		{"gz-corrupt", `printf 'not gzip' > $D/x.gz; $MLR --gzin cat $D/x.gz`, "fail"},
 		{"prepipe-failing", `$MLR --prepipe 'false' cat $D/ok.dkvp`, "any"},
+		{"gz-truncated-dkvp", `gzip -c $D/big.dkvp | head -c 200 > $D/t.gz; $MLR --gzin cat $D/t.gz`, "fail"},
+		{"gz-truncated-csv", `(echo a,b; cat $D/big.dkvp) | gzip -c | head -c 200 > $D/t.csv.gz; $MLR --icsv --ojson cat $D/t.csv.gz`, "fail"},
+		{"gz-truncated-json", `$MLR --ojson cat $D/big.dkvp | gzip -c | head -c 300 > $D/t.json.gz; $MLR --ijson --ojson cat $D/t.json.gz`, "fail"},
+		{"zlib-garbage-by-extension", `printf 'x\234garbage' > $D/t.z; $MLR cat $D/t.z`, "fail"},
+		{"stdin-closed-dir", `$MLR cat < $D`, "fail"},
+		{"nr-progress-mod-dev-full-stderr", `$MLR --nr-progress-mod 1 cat $D/ok.dkvp 2> /dev/full`, "ok"},
 		{"ok-cat", `$MLR cat $D/ok.dkvp`, "ok"},
 		{"ok-head", `$MLR head -n 1 $D/big.dkvp`, "ok"},
 		{"ok-empty", `$MLR cat /dev/null`, "ok"},
